@@ -48,13 +48,37 @@ pub fn interpret(corpus: &Corpus, opts: &SrcOpts, ch: &Choice, st: &mut Stats) -
     st.discard("no error-free `$`-free node");
     return None;
   }
+  // one case in six is drawn from the candidates with a rare textual feature (text that ends or
+  // begins with white space, a zero-width descendant, non-ASCII text), when there are any
+  let rare: Vec<_> = cands
+    .iter()
+    .filter(|c| {
+      let t = tsutil::text(&built.text, c);
+      t.ends_with(char::is_whitespace) || t.starts_with(char::is_whitespace) || !t.is_ascii() || tsutil::has_zero_width((*c).clone())
+    })
+    .cloned()
+    .collect();
+  let boosted = ch.holes.len() % 2 == 1 && ch.node.index(3) == 0 && !rare.is_empty();
+  let cands = if boosted {
+    st.label("rare_feature_candidate");
+    rare
+  } else {
+    cands
+  };
   let n = &cands[ch.node.index(cands.len())];
   let mut spec = pat::cut_pattern(&built.text, n, &ch.holes, ch.run);
   // precondition: parses, same shape; retry as contextual pattern
   let ok_plain = pat::build(&spec, lang)
     .map(|p| pat::shape_matches(&built.text, &spec, &p.node, n).is_ok())
     .unwrap_or(false);
-  if !ok_plain {
+  // the plain form has priority: when tree-sitter alone says that the pattern text parses to the
+  // code's shape, the plain pattern is the one the property speaks about, whatever the converted
+  // pattern tree looks like
+  let plain_by_raw = !ok_plain && catch(|| pat::build(&spec, lang)).ok().flatten().is_some() && pat::raw_shape_ok(lang, &built.text, &spec, n);
+  if plain_by_raw {
+    st.label("shape_by_raw_parse_only");
+  }
+  if !ok_plain && !plain_by_raw {
     spec.selector = Some(spec.kind.clone());
     let ok_ctx = catch(|| pat::build(&spec, lang))
       .ok()
